@@ -100,7 +100,36 @@ impl Cmp<'_> {
       );
       return;
     }
+    // the documented normalisation: a parameter that may be omitted (`x?`,
+    // `x = d`) stays optional when nothing required follows it, and becomes a
+    // required `x: T | undefined` otherwise
+    let omittable = |p: &Pat| match p {
+      Pat::Assign(_) => true,
+      Pat::Ident(i) => i.id.optional,
+      _ => false,
+    };
+    let is_rest = |p: &Pat| matches!(p, Pat::Rest(_));
     for (i, (a, b)) in orig.iter().zip(emit.iter()).enumerate() {
+      let required_follows = orig[i + 1..].iter().any(|p| !omittable(p) && !is_rest(p));
+      let emitted_optional = omittable(b);
+      if omittable(a) && required_follows && emitted_optional {
+        self.bad(
+          &format!("signature/optional-before-required/{what}"),
+          format!("`{name}` parameter {i} may be omitted in the source and is followed by a required parameter, but is emitted as optional"),
+        );
+      }
+      if !omittable(a) && !is_rest(a) && emitted_optional {
+        self.bad(
+          &format!("signature/required-parameter-made-optional/{what}"),
+          format!("`{name}` parameter {i}"),
+        );
+      }
+      if omittable(a) && !required_follows && !emitted_optional && !is_rest(b) {
+        self.bad(
+          &format!("signature/optional-parameter-made-required/{what}"),
+          format!("`{name}` parameter {i}"),
+        );
+      }
       if let Some(ta) = type_ann_of(a) {
         // `x?: T` may become `x: T | undefined`; `x: T = d` becomes `x?: T`
         let tb = type_ann_of(b);
